@@ -190,12 +190,6 @@ def main(argv):
                     fn_evidence.append(dict(function=q, file=p['file'], lines=p['lines'], sha256=p['sha256'][:16], rules=p.get('rules', {}),
                                             smt_us=f.get('time_us'), rlimit=f.get('rlimit'), verified=f.get('success')))
 
-    # ledger comparison: every ledger obligation must still exist
-    led = ledger.get(pid, [])
-    missing = [t for t in led if t not in obligations]
-    if missing and not any(results[un]['status'] != 'ok' for un in units):
-        undecided.append('ledger obligations no longer generated: ' + ', '.join(missing[:5]))
-
     # extra engines (kani, audits) are plugged in by props.py
     extra = PROPS.run_extra(pid, tier, seed) if hasattr(PROPS, 'run_extra') else None
     if extra:
@@ -208,6 +202,12 @@ def main(argv):
         for a in extra.get('assumptions', []):
             assumptions.add(a)
         checker_cmds += extra.get('cmds', [])
+
+    # ledger comparison: every ledger obligation must still exist
+    led = ledger.get(pid, [])
+    missing = [t for t in led if t not in obligations]
+    if missing and not any(results[un]['status'] != 'ok' for un in units):
+        undecided.append('ledger obligations no longer generated: ' + ', '.join(missing[:5]))
 
     # verdicts
     lines = []
